@@ -128,6 +128,17 @@ func elem(kind string, id float64) lua.LValue {
 		if int64(id*2)%3 == 0 {
 			return lua.LString("s" + strconv.FormatFloat(id, 'g', -1, 64))
 		}
+	case "strempty":
+		// a third of the elements is the empty string (an element like any other)
+		if int64(id)%3 == 0 {
+			return lua.LString("")
+		}
+		return lua.LString("s" + strconv.FormatFloat(id, 'g', -1, 64))
+	case "bool":
+		// false is an element like any other: only nil ends a list
+		if int64(id*2)%3 != 1 {
+			return lua.LBool(int64(id)%2 == 1)
+		}
 	}
 	return lua.LNumber(id)
 }
@@ -377,7 +388,7 @@ func genHistory(r *rand.Rand) *History {
 }
 
 func genHistory0(r *rand.Rand) *History {
-	h := &History{Kind: []string{"num", "num", "str", "mixed"}[r.Intn(4)]}
+	h := &History{Kind: []string{"num", "num", "str", "mixed", "strempty", "bool"}[r.Intn(6)]}
 	nops := 10 + r.Intn(111)
 	if r.Intn(10) == 0 {
 		nops = 1 + r.Intn(9)
@@ -436,6 +447,9 @@ func genHistory0(r *rand.Rand) *History {
 			}
 			op = Op{Op: "set", Pos: 1 + r.Intn(n), V: fresh()}
 		case k < 16:
+			if h.Kind == "bool" {
+				continue // booleans cannot be concatenated
+			}
 			op = Op{Op: "concat", NA: r.Intn(4), Sep: seps[r.Intn(len(seps))]}
 			if n == 0 {
 				op.I, op.J = 1+r.Intn(2), 0
@@ -470,7 +484,7 @@ func genHistory0(r *rand.Rand) *History {
 				}
 			}
 		default:
-			if h.Kind == "mixed" {
+			if h.Kind == "mixed" || h.Kind == "bool" {
 				continue
 			}
 			op = Op{Op: "sort"}
@@ -668,9 +682,15 @@ func runSort(c *fw.Ctx, sc *SortCase, count bool) string {
 			}
 			return "after table.sort the list is not a permutation of the original elements: " + fw.Short(canon(got), 300)
 		}
-		if count {
-			c.Count("sort_error_left_non_permutation(info)", 1)
+		// The comparator's error ended the sort early; every step up to there moved
+		// whole elements, so the list still holds each element exactly once. (The
+		// statement's "some permutation or a Lua error" is read inclusively: an error
+		// does not license losing or duplicating elements - see DESIGN.md, C18.)
+		var got []lua.LValue
+		for i := 1; i <= n+1; i++ {
+			got = append(got, t.RawGetInt(i))
 		}
+		return "table.sort ended with the comparator's error and left a list that is not a permutation of the original elements: " + fw.Short(canon(got), 300)
 	}
 	if o.Err == nil && swo {
 		for i := 1; i < n; i++ {
